@@ -325,7 +325,7 @@ func scalarTV(st scalarType, d string) *sdcpb.TypedValue {
 		// data-server carries binary as the base64 text (utils.ConvertBinary)
 		return &sdcpb.TypedValue{Value: &sdcpb.TypedValue_StringVal{StringVal: d}}
 	case t == "identityref":
-		return &sdcpb.TypedValue{Value: &sdcpb.TypedValue_IdentityrefVal{IdentityrefVal: &sdcpb.IdentityRef{Value: d, Module: Identities[d]}}}
+		return &sdcpb.TypedValue{Value: &sdcpb.TypedValue_IdentityrefVal{IdentityrefVal: &sdcpb.IdentityRef{Value: d, Module: Identities[d], Prefix: ModulePrefix[Identities[d]]}}}
 	}
 	return &sdcpb.TypedValue{Value: &sdcpb.TypedValue_StringVal{StringVal: d}}
 }
